@@ -42,6 +42,11 @@ type Box struct {
 	Spok  string // Dir/bin/spok
 	Drop  bool   // run as uid 65534
 	Calls int
+	// Invoke: how runs whose working directory is the project root are really started ("" = there,
+	// without --spokfile): "rel-dot" there with --spokfile ./spokfile; "rel-parent" in the parent with
+	// --spokfile <project>/spokfile; "abs-elsewhere" / "rel-elsewhere" in a sibling directory with an
+	// absolute / relative --spokfile. All of them name the same spokfile, so nothing else may differ.
+	Invoke string
 }
 
 // New creates a sandbox below base with a private copy of the spok binary.
@@ -102,12 +107,61 @@ func (b *Box) Reset() error {
 
 // ResetAs is Reset with the project directory called name ("" = proj): the directory a spokfile
 // lives in may be called anything the file system allows.
-func (b *Box) ResetAs(name string) error {
+func (b *Box) ResetAs(name string) error { return b.ResetFor(name, "") }
+
+// ResetFor is ResetAs plus the way spok is pointed at the project (see Box.Invoke).
+func (b *Box) ResetFor(name, invoke string) error {
 	if name == "" {
 		name = "proj"
 	}
 	b.Proj = filepath.Join(b.Home, name)
-	return b.Reset()
+	b.Invoke = invoke
+	if err := b.Reset(); err != nil {
+		return err
+	}
+	if invoke == "abs-elsewhere" || invoke == "rel-elsewhere" {
+		if err := os.MkdirAll(filepath.Join(b.Home, "started-here"), 0o755); err != nil {
+			return err
+		}
+		return b.Own()
+	}
+	return nil
+}
+
+// start maps the working directory a check asks for to the one spok is really started in, and the
+// --spokfile value that goes with it ("" = none).
+func (b *Box) start(cwd string) (string, string) {
+	if b.Invoke == "" || cwd != b.Proj {
+		return cwd, ""
+	}
+	base := filepath.Base(b.Proj)
+	switch b.Invoke {
+	case "rel-dot":
+		return cwd, "./spokfile"
+	case "rel-parent":
+		return b.Home, base + "/spokfile"
+	case "abs-elsewhere":
+		return filepath.Join(b.Home, "started-here"), filepath.Join(b.Proj, "spokfile")
+	case "rel-elsewhere":
+		return filepath.Join(b.Home, "started-here"), "../" + base + "/spokfile"
+	}
+	return cwd, ""
+}
+
+// EffectiveCwd is the directory a run asked to start in cwd really starts in (what join() and
+// other working-directory-relative things see).
+func (b *Box) EffectiveCwd(cwd string) string {
+	d, _ := b.start(cwd)
+	return d
+}
+
+func hasArg(args []string, a string) bool {
+	for _, x := range args {
+		if x == a {
+			return true
+		}
+	}
+	return false
 }
 
 // Own hands everything under sb/ to the sandbox user (after the harness wrote files as root).
@@ -154,6 +208,12 @@ func (b *Box) Run(cwd string, env []string, timeout time.Duration, args ...strin
 // RunWrapped is Run with a wrapper command (e.g. strace with fault injection) in front of spok.
 func (b *Box) RunWrapped(wrapper []string, cwd string, env []string, timeout time.Duration, args ...string) Result {
 	b.Calls++
+	if !hasArg(args, "--spokfile") && !hasArg(args, "--init") {
+		var sf string
+		if cwd, sf = b.start(cwd); sf != "" {
+			args = append([]string{"--spokfile=" + sf}, args...)
+		}
+	}
 	cx, cancel := context.WithTimeout(context.Background(), timeout)
 	defer cancel()
 	argv := append(append(append([]string(nil), wrapper...), b.Spok), args...)
